@@ -1,7 +1,6 @@
 package main
 
 import (
-	"time"
 	"context"
 	"errors"
 	"fmt"
@@ -9,6 +8,7 @@ import (
 	"regexp"
 	"sort"
 	"strings"
+	"time"
 
 	"github.com/cloudwego/eino/compose"
 	"github.com/cloudwego/eino/schema"
@@ -541,7 +541,6 @@ func runMergeSchema(w *world, c Case) ([]finding, string) {
 	sort.Strings(others)
 	return []finding{{"merged-stream:panic-value-lost", fmt.Sprintf("a convert function panicked with %q inside a merged stream; %d chunks and %d error items were delivered but no error item mentions the panic: %v", f.text(), items, errItems, others)}}, oc
 }
-
 
 // runMergeLag: source 0 panics at chunk PanicAt of 10 while its forwarder's buffer is full (the reader has only
 // taken PanicAt-5 of its items and then waits until the panic has happened). The error item must still reach
